@@ -130,6 +130,45 @@ class BuildFailed(Exception):
     pass
 
 
+def extract_fixture(fdir=None):
+    """Facts of the engine self-test crate /verif/fixtures/fx (std only), built by the same driver."""
+    fdir = fdir or os.path.join(VERIF, "fixtures", "fx")
+    ensure_driver()
+    key = "fx-" + tree_hash(fdir, "fixture")
+    out = os.path.join(CACHE, "facts", key)
+    if os.path.exists(os.path.join(out, "DONE")):
+        return out
+    os.makedirs(CACHE, exist_ok=True)
+    tdir = os.path.join(CACHE, "target-fixture")
+    lock = open(os.path.join(CACHE, "lock-target-fixture"), "w")
+    fcntl.flock(lock, fcntl.LOCK_EX)
+    try:
+        if os.path.exists(os.path.join(out, "DONE")):
+            return out
+        tmp = out + ".tmp%d" % os.getpid()
+        shutil.rmtree(tmp, ignore_errors=True)
+        os.makedirs(tmp)
+        shutil.rmtree(os.path.join(tdir, "debug", ".fingerprint"), ignore_errors=True)
+        env = dict(os.environ)
+        env.update({"RUSTC_WRAPPER": "", "RUSTC_WORKSPACE_WRAPPER": DRIVER, "MIRFACTS_OUT": tmp, "MIRFACTS_ALL": "1",
+                    "RUSTFLAGS": "-C debug-assertions=off -Awarnings", "CARGO_TARGET_DIR": tdir, "CARGO_NET_OFFLINE": "true",
+                    "LD_LIBRARY_PATH": _sysroot() + "/lib:" + os.environ.get("LD_LIBRARY_PATH", "")})
+        r = subprocess.run(["cargo", "+nightly", "check", "--offline", "--lib"], cwd=fdir, env=env,
+                           stdout=subprocess.PIPE, stderr=subprocess.STDOUT, text=True)
+        if r.returncode != 0 or not os.path.exists(os.path.join(tmp, "fx-lib.json")):
+            sys.stderr.write(r.stdout[-3000:])
+            shutil.rmtree(tmp, ignore_errors=True)
+            raise BuildFailed("engine self-test fixture did not build / produced no facts")
+        with open(os.path.join(tmp, "DONE"), "w") as f:
+            f.write("ok\n")
+        shutil.rmtree(out, ignore_errors=True)
+        os.rename(tmp, out)
+        return out
+    finally:
+        fcntl.flock(lock, fcntl.LOCK_UN)
+        lock.close()
+
+
 def _prune_cache(keep, maxn=12):
     d = os.path.join(CACHE, "facts")
     ents = [os.path.join(d, x) for x in os.listdir(d) if ".tmp" not in x]
